@@ -3,6 +3,8 @@
 
 package pubsub
 
+import "github.com/StephenButtolph/canoto"
+
 //go:generate go run github.com/StephenButtolph/canoto/canoto $GOFILE
 
 type BatchMessage struct {
@@ -22,4 +24,10 @@ func ParseBatchMessage(msg []byte) ([][]byte, error) {
 		return nil, err
 	}
 	return batchMessage.Messages, nil
+}
+
+// batchedSize returns the number of bytes [msg] occupies inside an encoded
+// [BatchMessage]: the field tag, the length prefix and the payload.
+func batchedSize(msg []byte) int {
+	return len(canoto__BatchMessage__Messages__tag) + int(canoto.SizeBytes(msg))
 }
